@@ -566,6 +566,7 @@ impl Runtime {
     }
 
     fn r#cls(&mut self) -> Result<Event> {
+        self.print_col = 0;
         Ok(Event::Cls)
     }
 
